@@ -17,7 +17,7 @@ from harness.common import ASSUME, FAIL, PASS, check, tape_harness  # noqa: F401
 from harness import oracles as O
 from harness.frames import FakeFrame
 from harness.stubeval import StubError, parse_stub
-from harness.values import G_NESTED, G_NESTED2, G_NESTEDX, Grammar, build_value, show
+from harness.values import G_NESTED, G_NESTED2, G_NESTEDX, G_ODD, Grammar, build_value, show
 from vfix import funcs as F
 
 import monkeytype.typing as MT
@@ -48,7 +48,8 @@ REWRITERS = ("NoOpRewriter", "DEFAULT_REWRITER", "RemoveEmptyContainers", "Rewri
              "RewriteGenerator")
 FLAGS = ("default", "--ignore-existing-annotations", "--omit-existing-annotations", "--disable-type-rewriting")
 KINDS = ("function", "method", "generator", "coroutine", "partially_annotated")
-KIND_FUNC = {"function": F.mod_func, "method": F.Klass.method, "generator": F.gen_func, "coroutine": F.coro_func, "partially_annotated": F.ann_class}
+KIND_FUNC = {"function": F.mod_func, "method": F.Klass.method, "generator": F.gen_func, "coroutine": F.coro_func, "partially_annotated": F.ann_class,
+             "generator2": F.gen_func}  # generator2: ONE call of the generator yields every argument value of the history in turn
 M = F.__name__
 
 
@@ -118,6 +119,17 @@ def run_pipeline(kind, calls, k, rewriter_name, flag, flush_after=(), limit=2000
     logger = CallTraceStoreLogger(store)
     tracer = CallTracer(logger, k, None, None)
     ret_off = _offset(code, ("RETURN_VALUE", "RETURN_CONST"))
+    if kind == "generator2":
+        names = code.co_varnames[: code.co_argcount]
+        fr = FakeFrame(code, {names[0]: 0}, vars(F), None, 0)
+        tracer(fr, "call", None)
+        for arg, _res in calls:
+            fr.f_lasti = _offset(code, ("YIELD_VALUE",))
+            tracer(fr, "return", arg)
+            tracer(fr, "call", None)
+        fr.f_lasti = ret_off
+        tracer(fr, "return", None)
+        calls = ()
     for call_index, (arg, res) in enumerate(calls):
         if call_index in flush_after:
             logger.flush()
@@ -159,6 +171,7 @@ CONFIGS = (
     ("method", "DEFAULT_REWRITER", "default"), ("generator", "DEFAULT_REWRITER", "default"), ("coroutine", "DEFAULT_REWRITER", "default"),
     ("partially_annotated", "DEFAULT_REWRITER", "default"), ("partially_annotated", "DEFAULT_REWRITER", "--ignore-existing-annotations"),
     ("partially_annotated", "DEFAULT_REWRITER", "--omit-existing-annotations"), ("generator", "NoOpRewriter", "--ignore-existing-annotations"),
+    ("generator2", "DEFAULT_REWRITER", "default"), ("generator2", "NoOpRewriter", "default"),
 )
 RES_QUICK = Grammar(top_atoms=("int", "None"), elem_atoms=("int",), containers=("list",), max_size=0, depth=1)
 
@@ -205,6 +218,14 @@ def c01_body(t, k, g=G_PIPE, n_calls=2, full=False):
     pname = names[1] if names[0] == "self" else names[0]
     source_annotated = kind == "partially_annotated"
     arg_in_scope = not (source_annotated and flag != "--ignore-existing-annotations")  # else the source annotation / nothing stands there
+    if kind == "generator2":
+        anno = fi.returns if fi.has_return else None
+        if anno is None or not (O.is_generic(anno) and O.gname(anno) in ("Iterator", "Generator")):
+            return fail(f"generator annotated {O.show_type(anno) if anno is not None else None}")
+        for a, _r in calls:
+            if not O.conforms(a, O.args_of(anno)[0]):
+                return fail(f"return annotation {O.show_type(anno)} does not admit the yielded value {show(a)}")
+        return check(True)
     if arg_in_scope:
         anno = fi.annotations.get(pname)
         if anno is None:
@@ -271,7 +292,10 @@ def c06_body(t, k, g=G_PIPE, n_calls=2, full=False):
                         dicts = _nested_dicts([v for a, r in calls for v in (a, r)])
                         good = [d for d in dicts if len(d) > 0 and all(isinstance(x, str) for x in d) and O.conforms(d, node)]
                         bad = [d for d in dicts if (len(d) == 0 or not all(isinstance(x, str) for x in d)) and O.conforms(d, node)]
-                        if not good or bad:
+                        # an empty / non-str-keyed dict that happens to fit an all-optional TypedDict is only a defect when
+                        # nothing else at the annotation accounts for it (e.g. Union[List[Dict[Any, Any]], List[TD]] from two yields)
+                        plain_dict = any(O.is_generic(x) and not O.is_union(x) and O.gname(x) in ("Dict", "DefaultDict") for _q, x in O.walk(anno))
+                        if not good or (bad and not plain_dict):
                             return fail(f"TypedDict annotation {O.show_type(node)} although the observed dicts were {[show(d) for d in dicts]}")
     return check(True)
 
@@ -448,12 +472,16 @@ G_DICT = Grammar(top_atoms=("int", "None"), elem_atoms=("int", "str"), container
 G_TUP = Grammar(top_atoms=("None", "int"), elem_atoms=("int", "bool"), containers=("tuple",), max_size=2, depth=1)
 _CFG = {
     "c01_tuples": (c01_body, G_TUP, 3, (0, 1, 5)),
+    "c01_odd": (c01_body, G_ODD, 3, (0, 1, 3)), "c06_gen2": (c06_body, None, 2, (15, 16)), "c01_gen2": (c01_body, G_PIPE, 2, (15, 16)),
     "c01_quick": (c01_body, G_PIPE, 2, False), "c01_medium": (c01_body, G_PIPE1, 2, False), "c01_thorough": (c01_body, G_PIPE2, 2, False),
     "c01_three": (c01_body, G_PIPE, 3, False), "c01_matrix": (c01_body, G_PIPE, 2, True),
     "c01_nested2": (c01_body, G_NESTED2, 2, "single"), "c01_nested": (c01_body, G_NESTED, 2, "single"),
     "c06_nested": (c06_body, G_NESTED, 2, "single"), "c01_nestedx": (c01_body, G_NESTEDX, 2, "single"), "c06_nestedx": (c06_body, G_NESTEDX, 2, "single"),
     "c06_quick": (c06_body, G_PIPE, 2, False), "c06_dicts": (c06_body, G_DICT, 2, False), "c06_thorough": (c06_body, G_PIPE2, 2, False),
 }
+# bare str-keyed dicts over three keys, <= 2 keys each: two yields of one generator call whose key sets differ
+G_DICTK = Grammar(top_atoms=("int",), elem_atoms=("int",), containers=("dict_str",), max_size=2, depth=1, str_keys=("a", "b", "c"))
+_CFG["c06_gen2"] = (c06_body, G_DICTK, 2, (15, 16))
 for _n, (_b, _g, _calls, _full) in _CFG.items():
     def _mk(b=_b, g=_g, c=_calls, f=_full):
         return lambda t, k: b(t, k, g, c, f)
